@@ -1,6 +1,7 @@
 ------------------------------- MODULE MinerMC -------------------------------
 EXTENDS Miner
 CONSTANTS RH, RS0
+RS0all == {-1, 0, 1}
 Sts == {"ok", "err", "unbound", "unverif"}
 Lists == {<<"a", "b">>, <<"b", "a">>}
 Rounds == {[h |-> h, prev |-> "n", s0 |-> s0, lst |-> l, st |-> st, order |-> [o \in Slots |-> SelectSeq(ord[o], LAMBDA p : st[p] # "err")], nover |-> nv] :
